@@ -44,7 +44,7 @@ def check(repo, col, tier):
     col.rule("R-C02-layout", "every compartment's row is the one its neighbours' couplings point to (padded layout)", 8)
     c01._layout(repo, col, "R-C02-layout")
     col.rule("R-C02-rowsum", "coupling part of the implicit matrices has zero row sums (contribution tables)", 10)
-    col.rule("R-C02-schedule", "every level of every cell is part of the solve", 2)
+    col.rule("R-C02-schedule", "every level of every cell is part of the solve", 1)
     c01_solver._assembly_jaxley(repo, col, "R-C02-rowsum")
     c01_solver._assembly_sparse(repo, col, "R-C02-rowsum")
     c01_solver._merge(repo, col, "R-C02-schedule")
